@@ -234,6 +234,8 @@ fn contexts(form: &Sx) -> Vec<(&'static str, Vec<Sx>)> {
         ("top-level", vec![form.clone()]),
         ("tail-of-procedure", vec![Sx::List(vec![Sx::Sym("define".into()), Sx::List(vec![Sx::Sym("proc".into())]), form.clone()]), parse1("(proc)")]),
         ("operand", vec![Sx::List(vec![Sx::Sym("list".into()), Sx::Int(0), form.clone()])]),
+        // the form handed to a user-defined macro whose expansion evaluates it once, as an operand
+        ("through-user-macro", vec![parse1("(define-syntax wrap-once (syntax-rules () ((wrap-once e) (list 0 e 1))))"), Sx::List(vec![Sx::Sym("wrap-once".into()), form.clone()])]),
         (
             "non-tail-in-procedure",
             vec![
@@ -559,7 +561,21 @@ pub fn judge_after(it: &mut Interp, forms: &[Sx], policy: Policy, quirks: Quirks
     let mut class = String::new();
     for f in forms {
         m.trace.clear();
-        let r = m.eval_top(f);
+        // the reference evaluator has no macro definitions: a `define-syntax` form is evaluated by
+        // the implementation only, and a use of the harness's own `wrap-once` macro is what its
+        // single rule says, (list 0 e 1)
+        if matches!(f, Sx::List(v) if v.first() == Some(&Sx::Sym("define-syntax".into()))) {
+            let o = it.eval(&f.to_string());
+            if !matches!(o, Outcome::Val(_)) {
+                return CaseResult { ok: false, expected: format!("{} is accepted", f), observed: format!("{}", o), obs_hash: 0, class: "definition-rejected".into() };
+            }
+            continue;
+        }
+        let reference_form = match f {
+            Sx::List(v) if v.len() == 2 && v[0] == Sx::Sym("wrap-once".into()) => Sx::List(vec![Sx::Sym("list".into()), Sx::Int(0), v[1].clone(), Sx::Int(1)]),
+            other => other.clone(),
+        };
+        let r = m.eval_top(&reference_form);
         let (o, trace) = it.eval_traced(&f.to_string());
         exp.push(format!("{} trace={:?}", show_result(&r), m.trace));
         obs.push(format!("{} trace={:?}", o, trace));
